@@ -62,6 +62,7 @@ type filterWindow struct {
 	app          *App
 	hadReserve   bool // an unowned IP was stored under the app/pool prefix at every step of the window
 	tookReserved bool // the pod was given one of those reserved IPs during this attempt
+	tookIP       string
 	gateClosed   bool // the deployment's pods held >= replicas IPs at every step of the window
 	hadIPAfterFilter bool // the identity held an IP when the filter call returned
 	closed       bool
